@@ -1,0 +1,40 @@
+//go:build verif
+
+package packet
+
+// Contracts for the packet constructors and Message.Copy (govc, /verif).
+// Comments only.
+//
+//@ func NewConnack() (p *Connack)
+//@   ensures p != nil && fresh(p) && !p.SessionPresent && p.ReturnCode == 0
+//@ func NewConnect() (p *Connect)
+//@   ensures p != nil && fresh(p) && p.CleanSession && p.Version == 4 && p.Will == nil
+//@ func NewPuback() (p *Puback)
+//@   ensures p != nil && fresh(p) && p.ID == 0
+//@ func NewPubcomp() (p *Pubcomp)
+//@   ensures p != nil && fresh(p) && p.ID == 0
+//@ func NewPubrec() (p *Pubrec)
+//@   ensures p != nil && fresh(p) && p.ID == 0
+//@ func NewPubrel() (p *Pubrel)
+//@   ensures p != nil && fresh(p) && p.ID == 0
+//@ func NewUnsuback() (p *Unsuback)
+//@   ensures p != nil && fresh(p) && p.ID == 0
+//@ func NewDisconnect() (p *Disconnect)
+//@   ensures p != nil && fresh(p)
+//@ func NewPingreq() (p *Pingreq)
+//@   ensures p != nil && fresh(p)
+//@ func NewPingresp() (p *Pingresp)
+//@   ensures p != nil && fresh(p)
+//@ func NewPublish() (p *Publish)
+//@   ensures p != nil && fresh(p) && p.ID == 0 && !p.Dup && p.Message.QOS == 0 && !p.Message.Retain && len(p.Message.Topic) == 0 && len(p.Message.Payload) == 0
+//@ func NewSuback() (p *Suback)
+//@   ensures p != nil && fresh(p) && p.ID == 0 && len(p.ReturnCodes) == 0
+//@ func NewSubscribe() (p *Subscribe)
+//@   ensures p != nil && fresh(p) && p.ID == 0 && len(p.Subscriptions) == 0
+//@ func NewUnsubscribe() (p *Unsubscribe)
+//@   ensures p != nil && fresh(p) && p.ID == 0 && len(p.Topics) == 0
+//
+// Copy: a fresh message with the same field values (the payload array is
+// shared, which is what callers that only change QOS/Retain rely on).
+//@ func (m Message) Copy() (r *Message)
+//@   ensures r != nil && fresh(r) && r.Topic == m.Topic && r.Payload == m.Payload && r.QOS == m.QOS && (r.Retain <==> m.Retain)
